@@ -97,7 +97,6 @@ pub fn admissible(h: &[Op], n_inputs: usize) -> bool {
 // ------------------------------------------------------------------ system under simulation
 
 pub struct Sx {
-    pub spec: SysSpec,
     pub ctx: Context,
     pub sys: TransitionSystem,
     pub inputs: Vec<ExprRef>,
@@ -119,7 +118,7 @@ impl Sx {
         let input_obs = b.sys.inputs.iter().map(|s| find(*s)).collect();
         let state_tys = b.sys.states.iter().map(|s| ty_of(&ctx, s.symbol)).collect();
         let input_tys = b.sys.inputs.iter().map(|s| ty_of(&ctx, *s)).collect();
-        Sx { key: spec_key(spec), spec: spec.clone(), ctx, inputs: b.inputs, sys: b.sys, obs, state_obs, input_obs, state_tys, input_tys }
+        Sx { key: spec_key(spec), ctx, inputs: b.inputs, sys: b.sys, obs, state_obs, input_obs, state_tys, input_tys }
     }
 
     /// `set` alphabet of input j: all values up to width 2, else {0, 1, ones}
@@ -173,7 +172,7 @@ fn val_has_type(v: &Val, t: Ty) -> bool {
 
 #[derive(Clone, Debug)]
 pub struct Fail {
-    /// value | panic|<file> | noncanonical | restore-inputs | continuation | nondeterministic | snapshot-id | type
+    /// value | panic|<file> | noncanonical | restore-inputs | continuation | nondeterministic | type
     pub class: String,
     pub pos: usize,
     pub obs: Option<usize>,
@@ -207,6 +206,7 @@ pub fn run_full(sx: &Sx, hist: &[Op], expect: Option<&[u64]>) -> Result<RunOk, F
     let mut all_reads: Vec<Vec<Val>> = Vec::with_capacity(hist.len());
     let mut inputs_at: Vec<Vec<Val>> = Vec::with_capacity(hist.len());
     let mut snap_pos: Vec<usize> = vec![];
+    let mut snap_ids: Vec<u32> = vec![];
     // active continuation comparisons: (snapshot position p, restore position q)
     let mut trackers: Vec<(usize, usize)> = vec![];
     let mut out = RunOk { model: model.clone(), read_hashes: vec![], ops: 0, reads: 0, continuation_compares: 0 };
@@ -220,16 +220,15 @@ pub fn run_full(sx: &Sx, hist: &[Op], expect: Option<&[u64]>) -> Result<RunOk, F
             Op::Set(j, v) => sim.set(sx.inputs[*j], &bv_to_baa(v)),
             Op::Step => sim.step(),
             Op::Snap => snap_id = Some(sim.take_snapshot()),
-            Op::Restore(i) => sim.restore_snapshot(*i),
+            Op::Restore(i) => sim.restore_snapshot(snap_ids[*i as usize]),
         });
         out.ops += 1;
         if let Err(p) = r {
             return Err(Fail { class: format!("panic|{}", p.file()), pos, obs: None, what: format!("{} panicked: {} ({})", op.to_text(), p.msg, p.short_loc()) });
         }
-        if let Some(id) = snap_id
-            && id as usize != model.snaps.len()
-        {
-            return Err(Fail { class: "snapshot-id".into(), pos, obs: None, what: format!("take_snapshot returned id {id}, the {}-th snapshot was expected to get id {}", model.snaps.len() + 1, model.snaps.len()) });
+        if let Some(id) = snap_id {
+            // histories name snapshots by position; the simulator's own id is what is handed back
+            snap_ids.push(id);
         }
         // ---- read everything
         let mut reads: Vec<Val> = Vec::with_capacity(sx.obs.len());
@@ -606,10 +605,13 @@ pub fn shrink_history(sx: &Sx, hist: &[Op], tag: &str) -> Vec<Op> {
     cur
 }
 
-/// drop bads / constraints / outputs, then init / next functions, while the same failure remains
-fn shrink_spec(spec: &SysSpec, hist: &[Op], tag_of: &dyn Fn(&Sx, &Fail) -> String, tag: &str) -> SysSpec {
-    let mut cur = spec.clone();
+/// minimise the system (roots dropped, functions removed, terms replaced by sub-terms) while the
+/// same failure remains under the given history; the input list is kept (set(j, v) is positional)
+fn shrink_system(spec: &SysSpec, hist: &[Op], tag_of: &dyn Fn(&Sx, &Fail) -> String, tag: &str) -> SysSpec {
     let still = |c: &SysSpec| -> bool {
+        if c.inputs != spec.inputs {
+            return false;
+        }
         let sx = Sx::new(c);
         if !admissible(hist, sx.inputs.len()) {
             return false;
@@ -619,29 +621,7 @@ fn shrink_spec(spec: &SysSpec, hist: &[Op], tag_of: &dyn Fn(&Sx, &Fail) -> Strin
             Ok(_) => false,
         }
     };
-    loop {
-        let mut cands: Vec<SysSpec> = vec![];
-        for i in (0..cur.bads.len()).rev() {
-            let mut c = cur.clone();
-            c.bads.remove(i);
-            cands.push(c);
-        }
-        for i in (0..cur.constraints.len()).rev() {
-            let mut c = cur.clone();
-            c.constraints.remove(i);
-            cands.push(c);
-        }
-        for i in (0..cur.outputs.len()).rev() {
-            let mut c = cur.clone();
-            c.outputs.remove(i);
-            cands.push(c);
-        }
-        match cands.into_iter().find(|c| still(c)) {
-            Some(c) => cur = c,
-            None => break,
-        }
-    }
-    cur
+    shrink_spec(spec, &still)
 }
 
 pub fn report(spec: &SysSpec, hist: &[Op], order: u64, rep: &Report) {
@@ -651,7 +631,7 @@ pub fn report(spec: &SysSpec, hist: &[Op], order: u64, rep: &Report) {
         Ok(_) => {
             // only a determinism failure can disappear on a single re-run
             rep.violation(Violation {
-                sig: format!("C07|nondeterministic|{}|-|{}", sys_class(spec), hist.iter().map(|o| o.kind()).collect::<Vec<_>>().join(",")),
+                sig: format!("C07|nondeterministic|{}|-|{}", skeleton_of(spec), hist.iter().map(|o| o.kind()).collect::<Vec<_>>().join(",")),
                 what: format!("two fresh interpreters given `{}` showed different reads", hist_text(hist)),
                 case: json!({"system": spec.to_json(), "history": hist.iter().map(|o| o.to_text()).collect::<Vec<_>>()}),
                 order,
@@ -668,7 +648,15 @@ pub fn report(spec: &SysSpec, hist: &[Op], order: u64, rep: &Report) {
         None => f.class.clone(),
     };
     let loose_tag = loose(&sx, &f);
-    let min_spec = shrink_spec(spec, &min_h, &loose, &loose_tag);
+    let min_spec = shrink_system(spec, &min_h, &loose, &loose_tag);
+    // the smaller system may allow a shorter history
+    let min_h = {
+        let sxm = Sx::new(&min_spec);
+        match run_full(&sxm, &min_h, None) {
+            Err(fm) => shrink_history(&sxm, &min_h, &fail_tag(&sxm, &fm)),
+            Ok(_) => min_h,
+        }
+    };
     let sx2 = Sx::new(&min_spec);
     let (min_spec, sx2, f2) = match run_full(&sx2, &min_h, None) {
         Err(f2) => (min_spec, sx2, f2),
@@ -685,7 +673,7 @@ pub fn report(spec: &SysSpec, hist: &[Op], order: u64, rep: &Report) {
         None => ("-".to_string(), 0),
     };
     let ops = min_h.iter().map(|o| o.kind()).collect::<Vec<_>>().join(",");
-    let sig = format!("C07|{}|{}|{}|{};{}", f2.class, sys_class(spec), if w == 0 { "-" } else { wclass(w) }, ops, obs_txt);
+    let sig = format!("C07|{}|{}|{}|{};{}", f2.class, skeleton_of(spec), if w == 0 { "-" } else { wclass(w) }, ops, obs_txt);
     rep.violation(Violation {
         sig,
         what: format!("[{}] {}", sys_class(spec), f2.what),
@@ -734,6 +722,7 @@ pub fn run(opts: &Opts, rep: &Report) {
     rep.note("depth", json!(depth));
     let capped = AtomicBool::new(false);
     let skipped = AtomicU64::new(0);
+    let failing: Collector<(SysSpec, Vec<Op>)> = Collector::default();
     // oracle-side vacuity evidence
     let saw_nextless = specs.iter().any(|s| s.states.iter().any(|st| st.next.is_none()));
     let saw_initless = specs.iter().any(|s| s.states.iter().any(|st| st.init.is_none()));
@@ -773,7 +762,7 @@ pub fn run(opts: &Opts, rep: &Report) {
             rep.add("systems_failing", 1);
         }
         for (n, (h, _f)) in res.iter().enumerate() {
-            report(spec, h, (idx * 16 + n) as u64, rep);
+            failing.offer(&format!("{}|{}", skeleton_of(spec), fail_tag(&sx, _f)), (idx * 16 + n) as u64, || (spec.clone(), h.clone()));
         }
         if !st.capped {
             rep.add("systems_completed", 1);
@@ -783,6 +772,8 @@ pub fn run(opts: &Opts, rep: &Report) {
         }
         rep.distinct_hashes(&st.nontrivial);
     });
+    let failing = failing.drain();
+    failing.par_iter().for_each(|(order, (spec, h))| report(spec, h, *order, rep));
     if capped.load(Ordering::Relaxed) {
         rep.cap_hit(&format!("wall budget {}s: {} systems not started, others stopped mid-search", opts.budget_s, skipped.load(Ordering::Relaxed)));
     }
